@@ -380,7 +380,13 @@ fn eval_shape(frames: usize, layout: usize, limits: usize, q: &Joints, far: bool
     let mut calls = 0u64;
     let case = crate::c11::Case { ctor: 2, frames, layout, safety: 0, limits, q: *q };
     let cell = crate::c11::cell_for(&case);
-    let robot = crate::c11::build(&case, &cell);
+    let mut robot = crate::c11::build(&case, &cell);
+    // every second case (by the bits of the posture): collision checking switched off through the public field; the
+    // entry points keep their contracts all the same
+    let unchecked = (q[1].to_bits() ^ q[3].to_bits().rotate_left(17) ^ (layout as u64) ^ (far as u64)) % 2 == 1;
+    if unchecked {
+        robot.body.safety.mode = rs_opw_kinematics::collisions::CheckMode::NoCheck;
+    }
     let pose = to_na(&cell.tcp(&case.q));
     let w = cell.limits.weight;
     let centres = rs_opw_kinematics::constraints::Constraints::new(cell.limits.from, cell.limits.to, w).centers;
@@ -400,7 +406,7 @@ fn eval_shape(frames: usize, layout: usize, limits: usize, q: &Joints, far: bool
             let cost = (1.0 - w) * dp + w * dc;
             if cost < last - 1e-9 * (1.0 + last.abs()) {
                 fails.push((
-                    format!("C09/continuation-order/{}/shape>tool>base>opw", entry.name()),
+                    format!("C09/continuation-order/{}/shape>tool>base>opw{}", entry.name(), if unchecked { "/nocheck" } else { "" }),
                     format!("answers of the robot with shape are not in closeness order: cost {cost} after {last} in {sols:?}"),
                 ));
                 break;
@@ -416,7 +422,7 @@ fn eval_shape(frames: usize, layout: usize, limits: usize, q: &Joints, far: bool
                 ));
             }
         }
-        sigs.push(format!("shape:{}:{}", entry.name(), sols.len().min(3)));
+        sigs.push(format!("shape:{}:{}{}", entry.name(), sols.len().min(3), if unchecked { ":nocheck" } else { "" }));
     }
     if let Ok(sols) = call(&robot, Entry::FiveDof, &pose, &prev, 0.55) {
         calls += 1;
